@@ -228,6 +228,15 @@ def check_api(col, pp, cfg, subs, scenario, a, b, extra):
                    {'a': a, 'b': b, 'a_outcome': ka, 'b_outcome': kb, 'exc': repr(oa if ka == 'exc' else ob)[:120]}, case)
     elif ka == 'ok' and not views_equal(pp, oa, ob, cfg.grain):
         col.report(f"api/{scenario}/spellings-give-different-objects", {'a': a, 'b': b}, case)
+    elif ka == 'ok' and scenario in ('capacity', 'plate-capacity'):
+        # and the capacity both spellings give is the volume the string denotes
+        from engines import bench
+        want = float(Fraction(extra['denotes'][0])) / cfg.vol_mult
+        v = bench.view(oa, pp)
+        caps = [v['cap']] if v['k'] == 'c' else [w['cap'] for row in v['wells'] for w in row]
+        if any(abs(c - want) > 1e-9 * want + cfg.grain for c in caps):
+            col.report(f"api/{scenario}/capacity-is-not-what-the-string-denotes",
+                       {'a': a, 'got_storage_units': caps[0], 'expected_storage_units': want}, case)
     elif ka == 'ok' and scenario == 'content' and 'denotes' in extra:
         # and what both spellings give is the amount the string denotes (v x SI factor of the prefix, in the base unit)
         frac, fam = Fraction(extra['denotes'][0]), extra['denotes'][1]
@@ -473,8 +482,15 @@ def run(col):
             m = data.draw(st.integers(1, 9999))
             extra = {'content': '2 mL', 'content2': '50 mg', 'aliquot': '10 uL', 'total': '10 mL', 'conc': '0.5 M', 'sub': 0}
             if scenario in ('capacity', 'plate-capacity'):
-                frac = Fraction(m + 2500, 10 ** 6)              # 2.5 .. 12.5 mL in litres
+                # 2.5 .. 12.5 mL in litres with a whole number of uL, or the same digits three or six decades further
+                # down (2.5 .. 12.5 uL with a fractional number of uL; nL-sized wells)
+                down = data.draw(st.sampled_from([0, 0, 3, 6]))
+                frac = Fraction(m + 2500, 10 ** (6 + down))
+                if down:
+                    extra['content'] = '2 uL' if down == 3 else '2 nL'
+                    extra['aliquot'] = '1 uL' if down == 3 else '1 nL'
                 a, b = two_spellings(data.draw, frac, 'L')
+                extra['denotes'] = [str(frac), 'L']
             elif scenario == 'content':
                 fam = data.draw(st.sampled_from(['L', 'g', 'mol']))
                 extra['sub'] = data.draw(st.integers(0, 1))
